@@ -210,7 +210,7 @@ class Search:
                     # (a smaller, still completely enumerated space: "<= bound deviations, consecutive ones <= window apart")
                     stop = len(w) if (window is None or not sch) else min(len(w), start + window)
                     for i in range(start, stop):
-                        for alt in range(1, w[i]):
+                        for alt in range(1, w[i] if demote != "only" else 1):
                             s2 = dict(sch)
                             s2[i] = alt
                             nxt[k].append((s2, w[: i + 1]))
@@ -224,7 +224,7 @@ class Search:
                     done[k] = d
                 fr[k] = nxt[k]
         for k in fr:
-            self.completed.setdefault(scens[k[0]]["name"], {})[k[1] + (f"/window{window}" if window else "") + ("/demote" if demote else "")] = done[k]
+            self.completed.setdefault(scens[k[0]]["name"], {})[k[1] + (f"/window{window}" if window else "") + ({True: "/demote", "only": "/demote-only"}.get(demote, ""))] = done[k]
 
     def explore_kills(self, scen, policy="FIFO", base_schedules=({},), restart_bound=0):
         """Kill the first scheduler process before every scheduling step of each base schedule, then run the restart
